@@ -17,8 +17,9 @@ ASSUMPTIONS = [
     "h_max = floor(n/H_n) with H_n summed in floating point; budgets where n/H_n is within 1e-9 of an integer are not judged on the budget clauses",
     "exhaustion within the budget mostly occurs for binary trees; for K >= 3 that part of the oracle is exercised less (reported in the evidence)",
 ]
-FLOOR = {"opens_judged": {"quick": 8000, "thorough": 150000}, "handouts_checked": {"quick": 30000, "thorough": 600000},
-         "runs_exhausted_within_budget": {"quick": 30, "thorough": 500}}
+FLOOR = {"opens_judged": {"quick": 8000, "thorough": 64000},
+         "handouts_checked": {"quick": 30000, "thorough": 240000},
+         "runs_exhausted_within_budget": {"quick": 30, "thorough": 240}}
 WALL = {"quick": 1200, "thorough": 4 * 3600}
 
 
